@@ -79,7 +79,8 @@ def run(ctx):
                 if e["ev"] == "reload" and not e.get("ok"):
                     x.pop("sgen", None)
                 out.append(x)
-        wruns.append(out)
+        if any(e["ev"] == "warm" for e in out):      # every fourth run registers warmers
+            wruns.append(out)
     ngc = sum(1 for r in wruns for e in r if e["ev"] == "warm_gc")
     n3 = tracecheck.validate_runs(ctx, wruns, "warm", "WarmTrace", "WarmTrace.cfg",
                                   key=lambda r: json.dumps([[e["ev"], e.get("r"), e.get("sgen"), e.get("live")] for e in r if e["ev"] != "warm"])[:3000],
